@@ -53,6 +53,17 @@ DamageOk(e) ==
   \/ e.outcome = "failed"
   \/ e.outcome = "ok" /\ e.extra = 0 /\ SameState(e.state, e.pre)
 
+\* C09: after all concurrent calls returned, strict recovery must succeed with exactly the final live collection
+EqualOk(e) == e.outcome = "ok" /\ e.extra = 0 /\ SameState(e.state, e.pre)
+
+\* C01/C02: a recovered engine accepts further writes, and the NEXT start-up preserves them:
+\* state = the follow-up ops applied (in order, failed ones skipped) to the census observed after the first recovery
+RECURSIVE FoldFrom(_, _, _, _)
+FoldFrom(base, os, st, j) == IF j = 0 THEN base
+                             ELSE IF st[j] # 2 THEN FoldFrom(base, os, st, j - 1)
+                             ELSE Apply(FoldFrom(base, os, st, j - 1), os[j])
+FollowOk(e) == e.outcome = "ok" /\ e.extra = 0 /\ SameState(e.state, FoldFrom(e.base, e.fops, e.fst, Len(e.fops)))
+
 Init == l = 1 /\ ops = <<>> /\ bad = <<>>
 
 Next ==
@@ -62,6 +73,8 @@ Next ==
      CASE e.ev = "hist"   -> ops' = e.ops /\ bad' = bad
        [] e.ev = "crash"  -> ops' = ops /\ bad' = IF CrashOk(e) THEN bad ELSE Append(bad, l)
        [] e.ev = "damage" -> ops' = ops /\ bad' = IF DamageOk(e) THEN bad ELSE Append(bad, l)
+       [] e.ev = "equal"  -> ops' = ops /\ bad' = IF EqualOk(e) THEN bad ELSE Append(bad, l)
+       [] e.ev = "follow" -> ops' = ops /\ bad' = IF FollowOk(e) THEN bad ELSE Append(bad, l)
        [] OTHER           -> ops' = ops /\ bad' = Append(bad, l)
 
 Done == l = Len(Rec) + 1 => PrintT(<<"TRACE-RESULT", Len(Rec), bad>>)
